@@ -58,6 +58,8 @@ typedef struct {
     unsigned pure_loads;
     int pending_write;
     int clock_reader;
+    unsigned backoff;
+    uint64_t last_sleep_epoch;
     int64_t prio;
     pthread_t native;
     void *(*fn)(void *);
@@ -181,7 +183,6 @@ static int pick_next(int me, int allow_me)
         if (!alive)
             return -1;
         uint64_t best = UINT64_MAX;
-        int spinners = 0;
         for (int i = 0; i < MAXT; i++) {
             if (i == me && !allow_me)
                 continue;
@@ -189,28 +190,22 @@ static int pick_next(int me, int allow_me)
                 continue;
             if (T[i].has_deadline && T[i].deadline_ns < best)
                 best = T[i].deadline_ns;
-            if (T[i].state == ST_SPIN)
-                spinners++;
         }
-        if (best != UINT64_MAX) {
-            if (best > g_now_ns)
-                g_now_ns = best;
-            ds_clock_jumps++;
-            continue;
-        }
-        if (!spinners)
-            hang("deadlock");
-        /* only read-spinners are left: let each of them look once more; if
-         * nothing is written for many rounds nothing ever will be */
+        if (best == UINT64_MAX)
+            hang("deadlock"); /* everybody waits for an event nobody can produce */
+        /* only timers are left: let virtual time leap.  If nothing at all is
+         * written during many consecutive timer expirations, nothing ever will
+         * be (idle schedulers and polling loops back off exponentially, so a
+         * legitimate quiet period costs few rounds). */
         if (g_idle_epoch != g_epoch) {
             g_idle_epoch = g_epoch;
             g_idle_rounds = 0;
         }
-        if (++g_idle_rounds > 64)
+        if (++g_idle_rounds > 400)
             hang("deadlock");
-        for (int i = 0; i < MAXT; i++)
-            if (T[i].state == ST_SPIN)
-                T[i].sleep_epoch = 0;
+        if (best > g_now_ns)
+            g_now_ns = best;
+        ds_clock_jumps++;
     }
 }
 
@@ -237,18 +232,32 @@ static void yield_blocked(void)
     T[me].wait_obj = NULL;
 }
 
+static unsigned backoff_level(vth *t)
+{
+    /* consecutive sleeps of this thread during which nobody wrote anything */
+    if (t->last_sleep_epoch == g_epoch) {
+        if (t->backoff < 30)
+            t->backoff++;
+    } else {
+        t->backoff = 0;
+    }
+    t->last_sleep_epoch = g_epoch;
+    return t->backoff;
+}
+
+/* A read-spinning thread sleeps until somebody writes, or until a timeout
+ * that doubles while nothing happens (an idle scheduler re-checks its stop
+ * condition only every N-th empty iteration, which is invisible from here). */
 static void spin_sleep(void)
 {
     int me = self_id;
     ds_spin_sleeps++;
+    unsigned b = backoff_level(&T[me]);
     T[me].state = ST_SPIN;
     T[me].sleep_epoch = g_epoch;
-    if (T[me].clock_reader) {
-        /* a loop that polls the clock: let virtual time pass */
-        T[me].has_deadline = 1;
-        T[me].deadline_ns = g_now_ns + 1000;
-        T[me].clock_reader = 0;
-    }
+    T[me].has_deadline = 1;
+    T[me].deadline_ns = g_now_ns + (2000ull << (b > 13 ? 13 : b));
+    T[me].clock_reader = 0;
     yield_blocked();
 }
 
@@ -319,7 +328,7 @@ void vsp(const volatile void *addr, int kind)
         g_epoch++;
     }
     ds_steps++;
-    g_now_ns += 1;
+    g_now_ns += g_cfg.tick_ns;
     if (ds_steps > g_cfg.step_limit)
         hang("steplimit");
     switch (kind) {
@@ -422,6 +431,8 @@ void ds_begin(const ds_cfg *cfg)
         g_cfg.step_limit = 3000000;
     if (!g_cfg.spin_thresh)
         g_cfg.spin_thresh = 40;
+    if (!g_cfg.tick_ns)
+        g_cfg.tick_ns = 1;
     g_rng = cfg->seed * 2654435761u + 88172645463325252ull;
     for (int i = 0; i < 4; i++)
         rnd();
@@ -719,7 +730,14 @@ int __wrap_nanosleep(const struct timespec *req, struct timespec *rem)
     if (!ACTIVE)
         return __real_nanosleep(req, rem);
     (void)rem;
-    uint64_t dl = g_now_ns + ts_ns(req);
+    /* nanosleep may oversleep: polling loops built on 100 ns sleeps (pool
+     * pop_wait) get a 20 us quantum so that waiting 0.1 s stays affordable */
+    uint64_t want = ts_ns(req);
+    unsigned b = backoff_level(&T[self_id]);
+    uint64_t q = 20000ull << (b > 9 ? 9 : b);
+    if (want < q)
+        want = q;
+    uint64_t dl = g_now_ns + want;
     ds_steps++;
     if (ds_steps > g_cfg.step_limit)
         hang("steplimit");
